@@ -20,6 +20,7 @@ func init() {
 	rt.Register("C08_String", C08_String)
 	rt.Register("C08_Char", C08_Char)
 	rt.Register("C08_QuotedSkeleton", C08_QuotedSkeleton)
+	rt.Register("C08_NumberSkeleton", C08_NumberSkeleton)
 	rt.Register("C08_Words", C08_Words)
 	rt.Register("C08_Regexp", C08_Regexp)
 }
@@ -205,9 +206,43 @@ func C08_IntegerLong() {
 	rt.Cover("19-digit literal accepted")
 }
 
+// C08_NumberSkeleton: float and duration literals deeper than the free inputs
+// reach: sign? D '.' D followed by three free bytes (exponent marker, exponent
+// sign, digit or anything else), and D u u D u with free unit bytes.
+func C08_NumberSkeleton() {
+	digit := func() byte {
+		b := rt.Byte("in")
+		rt.Assume(isDigit(b))
+		return b
+	}
+	var d []byte
+	if rt.Choose("kind", 2) == 0 {
+		if rt.Choose("sign", 2) == 1 {
+			d = append(d, '-')
+		}
+		d = append(d, digit(), '.', digit(), rt.Byte("in"), rt.Byte("in"), rt.Byte("in"))
+		if rt.Choose("tail", 2) == 1 {
+			d = append(d, digit())
+		}
+		for i := 1; i < len(d); i++ {
+			rt.Assume(!(d[i-1] == '\r' && d[i] == '\n'))
+		}
+		checkFloat(mkEnv(d, 0))
+		return
+	}
+	d = append(d, digit(), rt.Byte("in"), rt.Byte("in"), digit(), rt.Byte("in"))
+	for i := 1; i < len(d); i++ {
+		rt.Assume(!(d[i-1] == '\r' && d[i] == '\n'))
+	}
+	checkDuration(mkEnv(d, 0))
+}
+
 // C08_Float: the value is strconv.ParseFloat applied to exactly the lexeme.
 func C08_Float() {
-	e := setup(rt.Param("N", 4))
+	checkFloat(setup(rt.Param("N", 4)))
+}
+
+func checkFloat(e *env) {
 	node, err := e.parse(terminal.Float("float"))
 	if !e.common("float", node, err) {
 		return
@@ -236,7 +271,10 @@ func C08_Float() {
 
 // C08_Duration: the value is time.ParseDuration applied to exactly the lexeme.
 func C08_Duration() {
-	e := setup(rt.Param("N", 4))
+	checkDuration(setup(rt.Param("N", 4)))
+}
+
+func checkDuration(e *env) {
 	node, err := e.parse(terminal.TimeDuration("dur"))
 	if !e.common("dur", node, err) {
 		return
